@@ -629,6 +629,8 @@ def core(spec, model):
         and model["mult_present"]
         and not (model["optional"]["connectivity"] and spec["bond_orders"] == "fractional")
         and model["basis_cls"] != "absent"
+        # the MolSSI schema requires a top-level provenance in qcschema_output
+        and not (model.get("schema") == "output" and model.get("in_provenance") is None)
     )
 
 
